@@ -42,7 +42,7 @@ func c17(c *Ctx) {
 	R.Check("C17.nonblocking", "C17.nonblocking/dispatcher-single-blocking-select", c.rel(p.Pos(fn.Pos())), "exactly one blocking operation in the dispatcher", nb == 1, fmt.Sprintf("%d blocking operations", nb))
 	// PostObservationRequest result: nil only when sent
 	for _, r := range acceptingReturns(post) {
-		fs := facts.Atoms(facts.At(r, nil))
+		fs := facts.Atoms(acceptFacts(r))
 		R.Check("C17.nonblocking", "C17.nonblocking/PostObservationRequest/ok-means-sent", c.rel(p.Pos(instrPos(r))), "PostObservationRequest returns nil only when the send case was taken", len(fs) == 1 && fs[0] == "0 == select#0", strings.Join(fs, ";"))
 	}
 
